@@ -238,6 +238,48 @@ func (c *Ctx) headerWriter(enc, esc *ssa.Function) {
 		}
 	})
 	c.AddE1(res, false)
+	// the frame handed to the caller is the caller's alone: it shares no storage with a pooled / re-used buffer
+	// (a later Encode would rewrite it) nor with the header's or the body's own bytes
+	R.Rules["E4.fresh-frame"] = "the byte slice returned by Header.Encode shares its backing array with no buffer that is handed back to a sync.Pool, truncated and re-appended, or otherwise overwritten later, and with neither the body argument nor the header's stored phone bytes: a frame stays the framing of its own message after later Encode calls"
+	for _, r := range res {
+		n := 0
+		ok, d := true, ""
+		for _, ret := range r.Rets {
+			var s *absint.Slice
+			switch v := ret.Val.(type) {
+			case *absint.Slice:
+				s = v
+			case *absint.Tuple:
+				if len(v.Elems) > 0 {
+					s, _ = v.Elems[0].(*absint.Slice)
+				}
+			}
+			if s == nil {
+				continue
+			}
+			n++
+			foreign := map[int]string{}
+			if bs, isS := body.(*absint.Slice); isS {
+				foreign[bs.Base.ID] = "the body argument"
+			}
+			for id, b := range absint.AliasClosure(s.Base) {
+				if why, reused := r.A.Reused[id]; reused {
+					ok, d = false, fmt.Sprintf("the returned frame shares its backing array with %s: %s", b.Desc, why)
+				}
+				if w, isF := foreign[id]; isF {
+					ok, d = false, "the returned frame shares its backing array with "+w
+				}
+			}
+		}
+		st := report.Discharged
+		if !ok || n == 0 {
+			st = report.Violated
+			if n == 0 {
+				d = "no returned frame observed"
+			}
+		}
+		R.Add("E4.fresh-frame", name+" / returned frame", c.P.RelPos(enc.Pos()), st, d)
+	}
 	// aggregate
 	for _, which := range []string{"id", "property"} {
 		ok, d, n := true, "", 0
